@@ -382,8 +382,21 @@ def gen_problem(rng, dom):
     # objects of the root type (the only kind an untyped domain has)
     for i in range(rng.choice([0, 0, 1, 2]) + (2 if dom.get("untyped") else 0)):
         objs.append(("obj%d" % i, "object"))
+    # name collisions between the sections that get combined: an OBJECT of the problem named like a CONSTANT of the domain
+    # (30 % of the problems over a domain with constants; 1-2 names), declared with the constant's type or with any other
+    # type.  Which agent's problem file lists it and which agent's domain file declares the constant is decided by the
+    # splits (the same agent's, only another agent's, several).  The library resolves such a name in facts / fluents / goals
+    # through the constant ({**objects, **constants}), so the arguments below keep following the CONSTANT's type; the object
+    # entry itself belongs to the union of the agents' objects like any other.
+    shadow = []
+    if dom["consts"] and rng.random() < 0.3:
+        tn = [t for t, _ in types] + ["object"]
+        for c, ct in rng.sample(dom["consts"], min(len(dom["consts"]), rng.choice([1, 1, 2]))):
+            shadow.append((c, ct if rng.random() < 0.5 else rng.choice(tn)))
+    plain = list(objs)
+    objs = objs + shadow
     rng.shuffle(objs)
-    everything = objs + dom["consts"]
+    everything = plain + dom["consts"]
 
     def ground(sg, repeats=False):
         args, used = [], set()
@@ -442,7 +455,7 @@ def gen_problem(rng, dom):
     ngoals = list(dict.fromkeys(ngoals))
     return {"name": "prob%d" % rng.randint(0, 99), "domain": dom["name"], "objs": objs, "facts": facts,
             "fluents": sorted(fluents.items()), "goals": goals, "ngoals": ngoals, "near": near,
-            "untyped": bool(dom.get("untyped"))}
+            "untyped": bool(dom.get("untyped")), "shadow": shadow}
 
 
 MIRROR = {">=": "<=", "<=": ">=", ">": "<", "<": ">", "=": "="}
@@ -507,12 +520,16 @@ def split_problem(rng, prob, n, mode="mixed"):
     spread("fluents", prob["fluents"], 0.35)
     spread("goals", prob["goals"], 0.4)
     spread("ngoals", prob["ngoals"], 0.5)
+    # a file declares the objects its facts / goals mention - except the names that are constants of the domain too: the
+    # constant stands in, so a file may mention such a name and leave its declaration as an object to another file
+    shadowed = {o for o, _ in prob.get("shadow", [])}
+    needed = [o for o in onames if o not in shadowed]
     for v in views:
         for sec in ("facts", "goals", "ngoals"):
             for txt in v[sec]:
-                v["objs"].update(mentioned(txt, onames))
+                v["objs"].update(mentioned(txt, needed))
         for k, _ in v["fluents"]:
-            v["objs"].update(mentioned(k, onames))
+            v["objs"].update(mentioned(k, needed))
     return views
 
 
@@ -640,7 +657,7 @@ def generated_directories(rng, tier):
                "conflict": conflict[2] if conflict else None,
                "pconflict": pconflict[2] if pconflict else None,
                "others": other_domains(rng), "n": n, "untyped": bool(dom.get("untyped")), "near": prob.get("near", 0),
-               "split": mode}
+               "split": mode, "shadow": [[o, t, dict(dom["consts"])[o]] for o, t in prob["shadow"]]}
 
 
 def fixture_directories():
@@ -685,6 +702,19 @@ def witness_directories():
                dfiles={"domain-a.pddl": da, "domain-b.pddl": db, "domain-c.pddl": dc},
                pfiles={"problem-a.pddl": pa, "problem-b.pddl": pb, "problem-c.pddl": pc},
                original_domain=whole_d, original_problem=whole_p)
+    # an object of one agent's problem named like a constant that only ANOTHER agent's domain declares (t0 - t of
+    # domain-a): with the constant's type (listed by b and c, not by a, whose facts mention it all the same), and with
+    # another type (k - truck against the constant k - t of domain-c; listed by a only)
+    dk = dc.replace("(:predicates", "(:constants k - t)\n(:predicates")
+    sa = W_PROBLEM % ("t1 - t k - truck", "(q t0)", "(p t1) (q t0)")
+    sb = W_PROBLEM % ("t0 t1 - t", "(q t1) (p k)", "(p t1) (p t0)")
+    sc = W_PROBLEM % ("t1 - t t0 - t", "(= (f t0) 0.5)", "(p t1) (< (f t0) 7.25)")
+    yield dict(base, case="w_shadow", n=3, shadow=[["t0", "t", "t"], ["k", "truck", "t"]],
+               dfiles={"domain-a.pddl": da, "domain-b.pddl": db, "domain-c.pddl": dk},
+               pfiles={"problem-a.pddl": sa, "problem-b.pddl": sb, "problem-c.pddl": sc},
+               original_domain=whole_d.replace("(:constants t0 - t)", "(:constants t0 k - t)"),
+               original_problem=W_PROBLEM % ("t0 t1 - t k - truck", "(q t0) (q t1) (p k) (= (f t0) 0.5)",
+                                             "(p t1) (q t0) (p t0) (< (f t0) 7.25)"))
     # different domain names (a problem names its domain, so no problems here) / different problem names
     yield dict(base, case="w_dnames", n=2, pfiles={},
                dfiles={"domain-x.pddl": da.replace("domain wd", "domain first"), "domain-y.pddl": db.replace("domain wd", "domain second")})
@@ -760,7 +790,8 @@ def build_jobs(rng, tier):
                    "others": d["others"], "original_domain": d["original_domain"],
                    "original_problem": d["original_problem"], "conflict": d["conflict"], "pconflict": d["pconflict"],
                    "n": d["n"], "domain_path": d.get("domain_path"), "dorder": None, "porder": None,
-                   "untyped": d.get("untyped", False), "near": d.get("near", 0), "split": d.get("split")}
+                   "untyped": d.get("untyped", False), "near": d.get("near", 0), "split": d.get("split"),
+                   "shadow": d.get("shadow") or []}
             if order is not None:
                 job["dorder"] = [x for x in order if x in d["dfiles"]] or None
                 # the problems are enumerated independently of the domains: give them their own order
@@ -1275,6 +1306,33 @@ def run(args):
             1 for r in results if "ok" in r.get("dobs", {}) and any(len(c.split()) >= 3 for _, c in r["dobs"]["ok"]["types"])),
         "subtype_tables_compared_in_coq": sum(len(observed_domains(r)) for r in results if "dobs" in r),
     }
+    def collisions(j, r):
+        """(problem file, object, its type, the constant's type in the combination, own domain declares the constant)
+        for every object of an agent's problem file that is named like a constant of the combined domain"""
+        if "ok" not in r.get("dobs", {}) or "pfiles" not in r or j.get("domain_path"):
+            return []
+        consts = dict(map(tuple, r["dobs"]["ok"]["consts"]))
+        own = {n.split("-", 1)[1]: ({k for k, _ in f["ok"]["consts"]} if "ok" in f else set())
+               for n, f in zip(r["dorder"], r["dfiles"])}
+        return [(n, o, t, consts[o], o in own.get(n.split("-", 1)[1], set()))
+                for n, f in zip(r["porder"], r["pfiles"]) if "ok" in f for o, t in f["ok"]["objs"] if o in consts]
+    coll = [(j, r, collisions(j, r)) for j, r in zip(jobs, results)]
+    coll = [(j, r, c) for j, r, c in coll if c]
+    dist["object_named_like_a_constant"] = {
+        "directories": len({j.get("dir") for j, _, _ in coll}),
+        "jobs": len(coll),
+        "agent_problem_files_declaring_such_an_object": sum(len({c[0] for c in cs}) for _, _, cs in coll),
+        "declared_with_the_constants_type": sum(1 for _, _, cs in coll for c in cs if c[2] == c[3]),
+        "declared_with_another_type": sum(1 for _, _, cs in coll for c in cs if c[2] != c[3]),
+        "constant_declared_by_the_same_agents_domain_file": sum(1 for _, _, cs in coll for c in cs if c[4]),
+        "constant_declared_by_other_agents_domain_files_only": sum(1 for _, _, cs in coll for c in cs if not c[4]),
+        "combined_problems_exported_and_reparsed_with_such_an_object": sum(
+            1 for j, r, cs in coll if "ok" in r.get("prt", {}) and "ok" in r.get("pobs", {}) and
+            any(o in {c[1] for c in cs} for o, _ in r["pobs"]["ok"]["objs"])),
+        "directories_in_which_a_file_mentions_the_name_without_listing_it": len({
+            j.get("dir") for j, r, cs in coll for n, txt in j["pfiles"].items()
+            if any(mentioned(txt.split("(:init", 1)[-1], [c[1]]) and not mentioned(txt.split("(:init", 1)[0], [c[1]]) for c in cs)}),
+    }
     dist["new_classes"] = {
         "untyped_directories": len({j.get("dir") for j in jobs if j.get("untyped")}),
         "combinations_with_a_constant_of_type_object": sum(
@@ -1323,7 +1381,7 @@ def run(args):
                    "conflict class: a file names a type as a parent and leaves its declaration to another file; constants, 2-6 predicates, 0-3 functions, 1-6 actions with an agent "
                    "parameter, numeric conditions/effects) and problems (objects, facts, fluent values, goal literals, numeric goals) split "
                    "into 1-4 overlapping per-agent files (public/private parts, :private blocks, differing :requirements, shuffled "
-                   "sections); 20% of the directories carry one conflicting redefinition (predicate/constant/action/type; fluent value, object type); "
+                   "sections; 30 % of the problems over a domain with constants list 1-2 OBJECTS named like a domain CONSTANT, with the constant's type or another one, in the files the split picks - the same agent's domain may declare the constant or only another agent's); 20% of the directories carry one conflicting redefinition (predicate/constant/action/type; fluent value, object type); "
                    "every directory is combined under the file system's own discovery order and under forced orders (quick: 3, thorough: "
                    "all n! for n<=3, 12 of 24 for n=4; the problems get an independent order), dummy actions on in 35% of the jobs; the "
                    "shipped multi-agent fixture directories and hand-made witness directories (repaired findings D18/D27, files that differ "
